@@ -9,13 +9,17 @@ import (
 
 // RecStore is an in-memory mast.Persist that records its traffic and can inject faults.
 type RecStore struct {
-	mu       sync.Mutex
-	m        map[string][]byte
-	Prefix   string
-	Stores   []StoreCall // every Store call since the last Reset
-	Loads    []string    // every Load call since the last Reset
-	FailLoad func(n int, name string) error
+	mu        sync.Mutex
+	m         map[string][]byte
+	Prefix    string
+	Stores    []StoreCall // every Store call since the last Reset
+	Loads     []string    // every Load call since the last Reset
+	FailLoad  func(n int, name string) error
 	FailStore func(n int, name string) error
+	// Gate, when set, is called outside the lock at the start of every Store; it may block
+	// (scheduling) and decides whether the call fails. End is called when the call finishes.
+	Gate          func(n int, name string) error
+	End           func(n int, name string, err error)
 	nLoad, nStore int
 }
 
@@ -28,7 +32,25 @@ func NewRecStore(prefix string) *RecStore {
 	return &RecStore{m: map[string][]byte{}, Prefix: prefix}
 }
 
-func (s *RecStore) Store(ctx context.Context, name string, b []byte) error {
+func (s *RecStore) Store(ctx context.Context, name string, b []byte) (err error) {
+	if s.Gate != nil {
+		s.mu.Lock()
+		n := s.nStore
+		s.nStore++
+		cp := append([]byte(nil), b...)
+		s.Stores = append(s.Stores, StoreCall{name, cp})
+		s.mu.Unlock()
+		err = s.Gate(n, name)
+		if err == nil {
+			s.mu.Lock()
+			s.m[name] = cp
+			s.mu.Unlock()
+		}
+		if s.End != nil {
+			s.End(n, name, err)
+		}
+		return err
+	}
 	s.mu.Lock()
 	defer s.mu.Unlock()
 	n := s.nStore
